@@ -33,13 +33,15 @@ type COp struct {
 	Data []int  `json:"data,omitempty"` // data ids of the five filtered fields
 }
 type CCase struct {
-	ID    int    `json:"id"`
-	Gen   string `json:"gen"`
-	Init  COp    `json:"init"`
-	Ops   []COp  `json:"ops"`
-	Conc  int    `json:"conc,omitempty"`  // events processed concurrently with a sequence of rotations (0 = none)
-	Alias bool   `json:"alias,omitempty"` // a second filter shares the initial salt / info slices; it is emitted as the case with the next id
-	CB    bool   `json:"cb,omitempty"`    // one event with per-event wrapper info whose Tags() callback rotates the filter
+	ID        int    `json:"id"`
+	Gen       string `json:"gen"`
+	Init      COp    `json:"init"`
+	Ops       []COp  `json:"ops"`
+	Conc      int    `json:"conc,omitempty"`      // events processed concurrently with a sequence of rotations (0 = none)
+	Alias     bool   `json:"alias,omitempty"`     // further filters share the initial salt / info slices; they are emitted as the cases with the next ids
+	NF        int    `json:"nf,omitempty"`        // number of filters of an aliasing case (default 2)
+	ViaRotate bool   `json:"viarotate,omitempty"` // the shared slices are handed to the filters through Rotate(WithSalt(s), WithInfo(i)) instead of the exported fields
+	CB        bool   `json:"cb,omitempty"`        // one event with per-event wrapper info whose Tags() callback rotates the filter
 }
 
 type CPlain struct {
@@ -313,7 +315,7 @@ var concValues int // HMAC values produced under concurrent rotation and attribu
 
 type cresult struct {
 	lit     string
-	lit2    string // the second filter of an aliasing case (its own history, judged against its own key in force)
+	more    []string // the further filters of an aliasing case (each its own history, judged against its own key in force)
 	log     []string
 	nontriv bool
 	panics  []string
@@ -323,10 +325,26 @@ func execCrypto(c CCase) cresult {
 	ctx := context.Background()
 	keys := keyCands()
 	origSalt, origInfo := poolBytes("salt", c.Init.S), poolBytes("info", c.Init.I)
-	filters := []*encrypt.Filter{{Wrapper: cWrapper(c.Init.W), HmacSalt: origSalt, HmacInfo: origInfo}}
+	mk := func() *encrypt.Filter {
+		if c.ViaRotate {
+			return &encrypt.Filter{Wrapper: cWrapper(c.Init.W)} // salt / info arrive with the first operations (rotate, Orig)
+		}
+		return &encrypt.Filter{Wrapper: cWrapper(c.Init.W), HmacSalt: origSalt, HmacInfo: origInfo}
+	}
+	filters := []*encrypt.Filter{mk()}
 	if c.Alias {
-		// a second filter configured with the very same slices
-		filters = append(filters, &encrypt.Filter{Wrapper: cWrapper(c.Init.W), HmacSalt: origSalt, HmacInfo: origInfo})
+		// further filters configured with the very same slices
+		nf := c.NF
+		if nf < 2 {
+			nf = 2
+		}
+		for len(filters) < nf {
+			filters = append(filters, mk())
+		}
+	}
+	initS, initI := optBstrLit(c.Init.S), optBstrLit(c.Init.I)
+	if c.ViaRotate {
+		initS, initI = "None", "None"
 	}
 	var res cresult
 	stepsOf := make([][]string, len(filters))
@@ -354,7 +372,14 @@ func execCrypto(c CCase) cresult {
 				rotated = true
 			case "rotpayload":
 				opLit = fmt.Sprintf("ORotPayload N %s %s %s", optKeyLit(o.W), optBstrLit(o.S), optBstrLit(o.I))
-				out, err := f.Process(ctx, &el.Event{Type: "t", CreatedAt: fixedTime, Payload: &Rot{W: cWrapper(o.W), Salt: poolBytes("salt", o.S), Info: poolBytes("info", o.I)}})
+				rp := &Rot{W: cWrapper(o.W), Salt: poolBytes("salt", o.S), Info: poolBytes("info", o.I)}
+				out, err := f.Process(ctx, &el.Event{Type: "t", CreatedAt: fixedTime, Payload: rp})
+				// the payload's own slices are scribbled over afterwards: the filter must not have kept them
+				for _, b := range [][]byte{rp.Salt, rp.Info} {
+					for i := range b {
+						b[i] ^= 0x55
+					}
+				}
 				switch {
 				case err != nil:
 					obs = "CoErr"
@@ -426,11 +451,13 @@ func execCrypto(c CCase) cresult {
 	steps := stepsOf[0]
 	conc := concurrentPart(c, keys, &res)
 	concValues += len(conc)
-	res.lit = fmt.Sprintf("{| cc_id := %s; cc_init := {| f_wrap := %s; f_salt := %s; f_info := %s |};\n   cc_steps := %s;\n   cc_conc := %s; cc_cb := %s |}",
-		hc.N(c.ID), optKeyLit(c.Init.W), optBstrLit(c.Init.S), optBstrLit(c.Init.I), hc.List(steps), hc.List(conc), hc.List(callbackPart(c, keys)))
-	if c.Alias {
-		res.lit2 = fmt.Sprintf("{| cc_id := %s; cc_init := {| f_wrap := %s; f_salt := %s; f_info := %s |};\n   cc_steps := %s;\n   cc_conc := []; cc_cb := [] |}",
-			hc.N(c.ID+1), optKeyLit(c.Init.W), optBstrLit(c.Init.S), optBstrLit(c.Init.I), hc.List(stepsOf[1]))
+	// the slices the caller configured the filters with must still hold what the caller put there
+	callerOK := string(origSalt) == string(poolBytes("salt", c.Init.S)) && string(origInfo) == string(poolBytes("info", c.Init.I))
+	res.lit = fmt.Sprintf("{| cc_id := %s; cc_init := {| f_wrap := %s; f_salt := %s; f_info := %s |};\n   cc_steps := %s;\n   cc_conc := %s; cc_cb := %s; cc_caller := %s |}",
+		hc.N(c.ID), optKeyLit(c.Init.W), initS, initI, hc.List(steps), hc.List(conc), hc.List(callbackPart(c, keys)), hc.B(callerOK))
+	for i := 1; i < len(filters); i++ {
+		res.more = append(res.more, fmt.Sprintf("{| cc_id := %s; cc_init := {| f_wrap := %s; f_salt := %s; f_info := %s |};\n   cc_steps := %s;\n   cc_conc := []; cc_cb := []; cc_caller := true |}",
+			hc.N(c.ID+i), optKeyLit(c.Init.W), initS, initI, hc.List(stepsOf[i])))
 	}
 	return res
 }
@@ -524,6 +551,73 @@ func concurrentPart(c CCase, keys []keyCand, res *cresult) []string {
 			one(e, last)
 		}
 	}
+	return append(out, sharedSliceConcurrent(c, keys)...)
+}
+
+// Two filters configured with the SAME salt / info slices: B processes events while A is rotated through both routes (a
+// RotateWrapper payload through Process, Filter.Rotate) to values as long as the old ones.  Every value of B must be under
+// B's own configuration (wrapper 1, salt 1, info 1), and the caller's slices must keep their bytes.  (Built with -race by the
+// C19 check: a rotation writing into the shared backing array is also a data race with B's reads.)
+func sharedSliceConcurrent(c CCase, keys []keyCand) []string {
+	var out []string
+	for _, route := range []string{"rotpayload", "rotate"} {
+		out = append(out, sharedSliceRoute(c, keys, route)...)
+	}
+	return out
+}
+
+func sharedSliceRoute(c CCase, keys []keyCand, route string) []string {
+	ctx := context.Background()
+	salt, info := poolBytes("salt", 1), poolBytes("info", 1)
+	a := &encrypt.Filter{Wrapper: cWrapper(1), HmacSalt: salt, HmacInfo: info}
+	b := &encrypt.Filter{Wrapper: cWrapper(1)}
+	b.Rotate(encrypt.WithSalt(salt), encrypt.WithInfo(info))
+	stop := make(chan struct{})
+	var rot, wg sync.WaitGroup
+	rot.Add(1)
+	go func() {
+		defer rot.Done()
+		for j := 1; ; j++ {
+			select {
+			case <-stop:
+				return
+			default:
+			}
+			k := 1 + j%3 // 2, 3, 1, 2, ...: values as long as the configured ones
+			if route == "rotpayload" {
+				_, _ = a.Process(ctx, &el.Event{Type: "t", CreatedAt: fixedTime, Payload: &Rot{Salt: poolBytes("salt", k), Info: poolBytes("info", k)}})
+			} else {
+				a.Rotate(encrypt.WithSalt(poolBytes("salt", k)), encrypt.WithInfo(poolBytes("info", k)))
+			}
+		}
+	}()
+	var mu sync.Mutex
+	var out []string
+	bad := "(0%N, 1%N, 2%N)"
+	for g := 0; g < 2; g++ {
+		wg.Add(1)
+		go func() {
+			defer wg.Done()
+			for n := 0; n < c.Conc; n++ {
+				ev, err := b.Process(ctx, &el.Event{Type: "t", CreatedAt: fixedTime, Payload: &CPlain{E1: "x", E2: []byte("y"), H1: "data", H2: []byte("data"), E3: "z"}})
+				item := bad
+				if err == nil && ev != nil {
+					if _, at := attributeHmac(ev.Payload.(*CPlain).H1, []byte("data"), 0, keys, false); at.ok && at.kid == 1 && at.sid == 1 && at.iid == 1 {
+						item = "(1%N, 1%N, 1%N)"
+					}
+				}
+				mu.Lock()
+				out = append(out, item)
+				mu.Unlock()
+			}
+		}()
+	}
+	wg.Wait()
+	close(stop)
+	rot.Wait()
+	if string(salt) != string(poolBytes("salt", 1)) || string(info) != string(poolBytes("info", 1)) {
+		out = append(out, bad) // the caller's slices were written to
+	}
 	return out
 }
 
@@ -603,6 +697,34 @@ func cryptoSpecials() []CCase {
 	out = append(out, CCase{Gen: "aliasing", Alias: true, Init: COp{W: 1, S: 1, I: 1}, Ops: []COp{evA, evB,
 		{K: "rotate", S: 4, I: -1}, evA, evB, {K: "rotate", S: 2, I: 2}, evA, evB, {K: "rotate", S: 5, I: 5}, evA, evB,
 		{K: "rotate", Orig: true}, evA, evB, {K: "rotate", F: 1, S: 3, I: 4}, evA, evB, {K: "rotate", S: 3, I: -1}, {K: "rotate", Orig: true}, evA, evB}})
+	// the same through every rotation route (Filter.Rotate, a RotateWrapper payload through Process), with the shared slices
+	// handed over through the exported fields or through Rotate(WithSalt(s), WithInfo(i)), for two and three filters
+	for _, route := range []string{"rotate", "rotpayload"} {
+		for _, via := range []bool{false, true} {
+			for nf := 2; nf <= 3; nf++ {
+				c := CCase{Gen: "aliasing", Alias: true, NF: nf, ViaRotate: via, Init: COp{W: 1, S: 2, I: 3}}
+				evs := func() {
+					for f := 0; f < nf; f++ {
+						e := COp{K: "event", S: -1, I: -1, F: f, Data: all(1 + f)}
+						c.Ops = append(c.Ops, e)
+					}
+				}
+				if via {
+					for f := 0; f < nf; f++ {
+						c.Ops = append(c.Ops, COp{K: "rotate", Orig: true, F: f})
+					}
+				}
+				evs()
+				for _, n := range []int{4, 1, 5, 3} { // shorter, equally long, longer, equally long again
+					c.Ops = append(c.Ops, COp{K: route, S: n, I: n})
+					evs()
+				}
+				c.Ops = append(c.Ops, COp{K: route, F: nf - 1, S: 1, I: -1})
+				evs()
+				out = append(out, c)
+			}
+		}
+	}
 	out = append(out, CCase{Gen: "concurrent", Init: COp{W: 1, S: 1, I: 1}, Conc: 150})
 	out = append(out, CCase{Gen: "callback-rotation", Init: COp{W: 1, S: 1, I: 1}, CB: true})
 	return out
@@ -631,9 +753,9 @@ func mainCrypto(out, prefix string, perShard, n int, corpus string, concOnly boo
 		}
 		js, _ := json.Marshal(c)
 		side.Write(append(js, '\n'))
-		if r.lit2 != "" {
+		for _, l := range r.more {
 			id++
-			if err := cf.Add(r.lit2); err != nil {
+			if err := cf.Add(l); err != nil {
 				panic(err)
 			}
 			c2 := c
